@@ -3,7 +3,8 @@
 (* two maximum message sizes, upload / download / both), exhaustive exploration of every channel behaviour within    *)
 (* the fault budget for every scenario, and generator of the fault schedules replayed on the real code.              *)
 EXTENDS Blockwise, Json, SequencesExt
-CONSTANTS Grid, FaultBudget, OrphanGuard, Walks, MaxEvents, MaxReplay
+CONSTANTS Grid, FaultBudget, OrphanGuard, Walks, MaxEvents, MaxReplay,
+          LoseAt       \* > 0: directed schedules - everything delivered in order, the server's buffers time out once after LoseAt responses
 Pairs == IF Grid = "quick" THEN {<<0, 0>>, <<1, 0>>, <<0, 1>>, <<7, 7>>}
          ELSE IF Grid = "medium" THEN {<<0, 0>>, <<1, 0>>, <<0, 1>>, <<1, 1>>, <<2, 0>>, <<6, 6>>, <<7, 7>>, <<0, 7>>}
          ELSE {<<0, 0>>, <<0, 1>>, <<1, 0>>, <<0, 2>>, <<2, 0>>, <<1, 1>>, <<2, 1>>, <<1, 2>>, <<2, 2>>, <<6, 6>>, <<6, 7>>, <<7, 6>>, <<7, 7>>, <<0, 6>>, <<6, 0>>, <<0, 7>>}
@@ -28,7 +29,18 @@ Weighted == Enabled \cup {[a |-> "deliver", d |-> d, k |-> 0] : d \in {"c2s", "s
 Coarse == /\ Len(hist) < MaxEvents /\ Enabled # {}
           /\ \E a \in {RandomElement(Enabled)} : \E t \in Apply(p, s, a) : s' = t /\ hist' = Append(hist, a)
           /\ UNCHANGED <<p, w>>
-Next == IF Walks = 0 THEN Fine ELSE Coarse
+\* directed schedule: a fault-free exchange in which the server's buffers time out once, after LoseAt delivered responses
+NS2C == Cardinality({k \in 1..Len(hist) : hist[k].a = "deliver" /\ hist[k].d = "s2c"})
+Lost == \E k \in 1..Len(hist) : hist[k].a = "lose"
+DirAct == IF s.cli.st = "idle" THEN [a |-> "start", d |-> "c2s", k |-> 0]
+          ELSE IF NS2C = LoseAt /\ ~Lost /\ Lose(p, s) # {} THEN [a |-> "lose", d |-> "c2s", k |-> 0]
+          ELSE IF s.c2s # <<>> THEN [a |-> "deliver", d |-> "c2s", k |-> 0]
+          ELSE [a |-> "deliver", d |-> "s2c", k |-> 0]
+DirEnabled == Apply(p, s, DirAct) # {}
+Directed == /\ Len(hist) < MaxEvents /\ DirEnabled
+            /\ \E t \in Apply(p, s, DirAct) : s' = t /\ hist' = Append(hist, DirAct)
+            /\ UNCHANGED <<p, w>>
+Next == IF Walks = 0 THEN Fine ELSE IF LoseAt > 0 THEN Directed ELSE Coarse
 View == <<p, s, w>>
 Inv_ExactUp   == ExactUp(p, s)
 Inv_ExactDown == ExactDown(p, s)
@@ -36,5 +48,5 @@ Inv_OnceDown  == OnceUp(s)
 \* fault-free exchanges complete, except the BERT case O1 (DESIGN 5 C04): whole body in the first block but flagged "more"
 O1(q) == q.CS = 7 /\ q.L > 1024 /\ q.L < Buf(7, q.CMMS) /\ q.L % 1024 # 0
 Inv_Completes == (FaultBudget = 0 /\ ~O1(p)) => Completes(p, s)
-Emit == (Walks > 0 /\ (Len(hist) = MaxEvents \/ Enabled = {})) => PrintT(<<"HIST", ToJson([p |-> p, acts |-> hist])>>)
+Emit == (Walks > 0 /\ (Len(hist) = MaxEvents \/ (IF LoseAt > 0 THEN ~DirEnabled ELSE Enabled = {}))) => PrintT(<<"HIST", ToJson([p |-> p, acts |-> hist])>>)
 =============================================================================
